@@ -34,6 +34,46 @@ def run(chk):
     return chk
 
 
+def otlp_flush_budget(chk, P, key):
+    """OtlpInner::blocking_flush shares one timeout between its signals: the time handed to a later signal is computed from a clock reading
+    taken *after* the earlier signal's flush returned (timeout - start.elapsed()), so the call as a whole stays within `timeout`."""
+    def f():
+        b = P.impl_method("emit_core::emitter::Emitter", "emit_otlp::client::OtlpInner", "blocking_flush")
+        fl = [c for c in b.calls(normal_only=True) if c.callee.get("name") == "blocking_flush" and (c.callee.get("path") or "").startswith("emit_batcher::")]
+        if len(fl) < 2:
+            raise mir.AnchorMissing("two or more signal flushes in OtlpInner::blocking_flush (found %d)" % len(fl))
+
+        def readings(o, acc, d=0):
+            if d > 14:
+                return
+            if o[0] == "call":
+                if o[1].callee.get("name") in ("elapsed", "now", "duration_since", "saturating_duration_since", "checked_duration_since"):
+                    acc.append(o[1])
+                for a in o[1].args:
+                    readings(b.origin(a), acc, d + 1)
+            elif o[0] in ("field", "downcast", "index", "cast", "ref", "deref", "copy"):
+                readings(o[1], acc, d + 1)
+            elif o[0] == "binop":
+                readings(o[2], acc, d + 1)
+                readings(o[3], acc, d + 1)
+            elif o[0] == "phi":
+                for x in o[1]:
+                    readings(x, acc, d + 1)
+        for A in fl:
+            after = b.reachable_from(A.bb)
+            for B in fl:
+                if B is A or B.bb not in after:
+                    continue
+                acc = []
+                readings(b.origin(B.args[1]), acc)
+                if not any(r.bb in after and r.bb != A.bb for r in acc):
+                    return False, ("the flush at %s gets a timeout that does not account for the time the flush at %s took (%s): with a slow "
+                                   "earlier signal the whole call outlasts its timeout" %
+                                   (B.loc, A.loc, "no clock reading after it" if acc else "no clock reading at all")), [], B.loc
+        return True, "", [c.loc for c in fl]
+    chk.ob(key, "each OTLP signal is flushed with the time remaining after the signals flushed before it", f)
+
+
 def _ob(chk, prefix, only, key, text, fn):
     if only is None or key in only:
         chk.ob("%s.%s" % (prefix, key), text, fn)
